@@ -1052,13 +1052,28 @@ def translate(target, src):
     state = tr.state
     comps = ([] if rettype == 'void' else [tr.coqtype(rettype)]) + [tr.coqtype(t) for _, _, t in state]
     rcoq = ' * '.join(comps) if comps else 'unit'
+    if target.get('rcoq'): rcoq = target['rcoq']
     if tr.fuel: rcoq = 'option (%s)' % rcoq
     res['rcoq'] = rcoq
     try:
         params_text, body, line = locate(src, target['func'], target.get('nparams'))
         res['line'] = line
+        outputs = []
+        if target.get('region'):
+            # a REGION of a large function: the statements between two anchors (regexes over the comment-free body);
+            # the locals it reads are inputs (`locals`), the locals named in `outputs` and the state variables are its result
+            m1 = re.search(target['region'][0], body)
+            m2 = re.search(target['region'][1], body[m1.end():]) if m1 else None
+            if not (m1 and m2): raise Unsupported('region anchors not found')
+            if len(re.findall(target['region'][0], body)) != 1: raise Unsupported('region start anchor is not unique')
+            res['line'] = line + body[:m1.start()].count('\n')
+            body = body[m1.start():m1.end() + m2.start()]
+            if body.count('{') != body.count('}'): raise Unsupported('region is not a balanced statement sequence')
+            outputs = list(target.get('outputs', []))
         stmts = Parser(body).body()
         env = Env()
+        for cn, (g, t) in target.get('locals', {}).items():
+            env.vals[cn] = (g, t, tr.declid())
         for g, _ in target['inputs']:
             tr.used.add(g)
         for p in param_names(params_text):
@@ -1078,6 +1093,9 @@ def translate(target, src):
                 vals.append(tr.coerce(tr.tx(e, e2), rettype))
             elif e is not None:
                 raise Unsupported('return with a value in a void function')
+            for o in outputs:
+                if o not in e2.vals or e2.vals[o][0] is None: raise Unsupported('region output %s is not set at the end of the region' % o)
+                vals.append(e2.vals[o][0])
             vals += [e2.vals[p][0] for p, _, _ in state]
             t = 'tt' if not vals else (vals[0] if len(vals) == 1 else '(' + ', '.join(P(v) for v in vals) + ')')
             return 'Some %s' % P(t) if tr.fuel else t
@@ -1086,10 +1104,13 @@ def translate(target, src):
             if rettype != 'void': raise Unsupported('control reaches the end of a non-void function')
             return ret(None, e2)
 
+        def ret_region(e, e2):
+            raise Unsupported('return inside a region')
+
         def abort(e2):
             return ('Some %s' % P(tr.abort_val)) if tr.fuel else tr.abort_val
 
-        term = tr.ts(stmts, env, Ctx(ret, fall, abort=abort, rtype=rcoq, top=True))
+        term = tr.ts(stmts, env, Ctx(ret_region if target.get('region') else ret, fall, abort=abort, rtype=rcoq, top=True))
         if '\x00' in term: raise Unsupported('internal: unresolved continuation')
         res.update(ok=True, term=term)
     except Unsupported as ex:
